@@ -16,7 +16,7 @@ import json
 import re
 import os
 from types import SimpleNamespace
-from typing import Any
+from typing import Optional, Any
 
 import numpy as np
 
@@ -27,14 +27,19 @@ META = {
     "ready": True,
     "level": "proof",
     "technique": "Lean 4 theorems about the dispatcher/policy model + error-for-error correspondence with the "
-                 "real dispatcher under stub plugins + exhaustive fault injection over optimizer pass indices",
+                 "real dispatcher under stub plugins + exhaustive fault injection over optimizer pass indices and "
+                 "injection inside passes at onnx_ir mutation calls",
     "level_text": "Kernel-checked: unregistered_raises (any depth), lower_step_never_partial, pipeline_* policy "
-                  "theorems. The real dispatcher agrees with the model on generated programs x stub plugin "
-                  "behaviours; every pass index is forced to abort on real exports (default: valid model == JAX; "
-                  "strict: re-raised); unsupported constructs raise.",
-    "level_note": "Trusted: Lean kernel + 3 axioms; plugins abstracted by their effect on bindings (Act); aborts "
-                  "*inside* a pass are explored by injection (thorough tier) but not covered by a theorem; "
-                  "ORT CPU is the reference executor.",
+                  "theorems, and for in-place passes that may raise half-way: policyTx_sound (the transactional "
+                  "default policy returns a model meaning what the input meant for an abort at ANY point, also inside "
+                  "a pass), policyTx_strict_reraises, policyInPlace_unsound (the pre-repair policy refuted). The real "
+                  "dispatcher agrees with the model on generated programs x stub plugin behaviours; every pass index "
+                  "is forced to abort on real exports (default: valid model == JAX; strict: re-raised); aborts inside a "
+                  "pass are injected at onnx_ir mutation calls (seeded sample in quick, all in thorough); unsupported "
+                  "constructs raise.",
+    "level_note": "Trusted: Lean kernel + 3 axioms; plugins abstracted by their effect on bindings (Act); passes "
+                  "abstracted as state transformers that may raise leaving an arbitrary state; that completed passes "
+                  "preserve meaning is C02; ORT CPU is the reference executor.",
     "design_ref": "DESIGN.md §3 C16",
 }
 
@@ -438,8 +443,9 @@ def check_policy(chk: Check, thorough: bool) -> None:
     chk.info("optimizer_abort_injections", {"passes": len(passes), "injections_executed": n_inj})
 
 
-def check_midpass(chk: Check) -> None:
-    """Thorough tier: abort INSIDE a pass, at every onnx_ir mutation call the custom passes make."""
+def check_midpass(chk: Check, rng=None, budget: Optional[int] = None) -> None:
+    """Abort INSIDE a pass, at the onnx_ir mutation calls the custom passes make: every call of every
+    program (thorough), or a seeded sample of `budget` injection points (quick)."""
     import onnx
     import onnx_ir as ir
     import irtools
@@ -493,7 +499,12 @@ def check_midpass(chk: Check) -> None:
         opt._run_top_level_optimizer_pass = run_pass
         opt._run_function_optimizer_pass = run_fn_pass
         capi.optimize_graph = wrapped
-        for name, fn, specs, kw in policy_programs():
+        progs = list(policy_programs())
+        if budget is not None:
+            rng.shuffle(progs)
+        for name, fn, specs, kw in progs:
+            if budget is not None and total >= budget:
+                break
             xs = [np.asarray(((np.arange(int(np.prod(s))) * 0.37) % 5.0 - 2.0).reshape(s), dtype=np.float32)
                   for s in specs]
             ref = fn(*xs)
@@ -501,7 +512,10 @@ def check_midpass(chk: Check) -> None:
             st["fail_at"] = None
             to_onnx(fn, [tuple(s) for s in specs], **kw)
             ncalls = st["count"]
-            for k in range(1, ncalls + 1):
+            ks = list(range(1, ncalls + 1))
+            if budget is not None:
+                ks = sorted(rng.sample(ks, min(len(ks), 3)))
+            for k in ks:
                 st["fail_at"] = k
                 model = to_onnx(fn, [tuple(s) for s in specs], **kw)
                 total += 1
@@ -658,6 +672,8 @@ def run(chk: Check) -> None:
     check_policy(chk, thorough)
     if thorough:
         check_midpass(chk)
+    else:
+        check_midpass(chk, rng, budget=12)
     check_unsupported(chk)
     if not proved and not chk.violations:
         chk.violation({"broken": getattr(chk, "broken", []),
